@@ -105,6 +105,30 @@ def task_scale_laws(ctx, symbolic_scale):
       settle('scale.dimensionalize_inverts_nondimensionalize', cf, model,
              lambda s_, xv, yv, src=src, dst=dst, conv=conv: (float(s_.dimensionalize(s_.nondimensionalize(xv * u.parse_expression(src)), u.Unit(dst)).magnitude), xv * conv,
                                                               f'round trip {src} -> nondimensional -> {dst}'))
+  # array-valued quantities: the conversion of an array is the array of the conversions of its entries (object array of symbolic magnitudes through pint)
+  arr = np.array([X, Y, X * 2.0, Y * 0.5], dtype=object)
+  for src, dst in (() if symbolic_scale else (('km/hour', 'm/s'), ('hPa', 'Pa'), ('g/kg', 'dimensionless'))):      # concrete scale: pint divides the object array by float factors
+    cf = dict(conf0, unit=src, target=dst, array_valued=True)
+    try:
+      nd_a = sc.nondimensionalize(u.Quantity(arr, u.Unit(src)))
+      back_a = sc.dimensionalize(nd_a, u.Unit(dst)).magnitude
+      nd_s = [sc.nondimensionalize(u.Quantity(e, u.Unit(src))) for e in arr]
+      back_s = [sc.dimensionalize(n_, u.Unit(dst)).magnitude for n_ in nd_s]
+    except Exception as e:  # noqa: BLE001
+      ctx.error('scale.array_values_act_entrywise', f'{src}->{dst}: {type(e).__name__}: {e}')
+      continue
+    tt = lambda v: v.t if hasattr(v, 't') else Q(v)
+    bad = z3.Or(*[z3.Not(_close(tt(p_), tt(q_), _abs(tt(q_)))) for p_, q_ in zip(list(np.asarray(back_a, dtype=object).reshape(-1)), back_s)] +
+                [z3.Not(_close(tt(p_), tt(q_), _abs(tt(q_)))) for p_, q_ in zip(list(np.asarray(nd_a, dtype=object).reshape(-1)), nd_s)])
+    ok, model = decide(ctx, 'scale.array_values_act_entrywise', cf, pre, bad)
+    if not ok and model is not None:
+      def real_arr(s_, xv, yv, src=src, dst=dst):
+        av = np.array([xv, yv, 2 * xv, 0.5 * yv])
+        whole = np.asarray(s_.dimensionalize(s_.nondimensionalize(av * u.Unit(src)), u.Unit(dst)).magnitude, float)
+        parts = np.array([float(s_.dimensionalize(s_.nondimensionalize(float(e) * u.Unit(src)), u.Unit(dst)).magnitude) for e in av])
+        k = int(np.argmax(np.abs(whole - parts)))
+        return float(whole[k]), float(parts[k]), f'array vs entrywise conversion {src} -> {dst}, entry {k}'
+      settle('scale.array_values_act_entrywise', cf, model, real_arr)
   # offset units (degC, degF): the round trip through a DIFFERENT compatible unit must honour the offset in both directions
   offs = [('degC', 'degK', lambda t: t + Q(273.15), lambda v: v + 273.15), ('degK', 'degC', lambda t: t - Q(273.15), lambda v: v - 273.15),
           ('degF', 'degC', lambda t: (t - Q(32.0)) * Q(5.0 / 9.0), lambda v: (v - 32.0) * 5.0 / 9.0), ('degC', 'degC', lambda t: t, lambda v: v)]
